@@ -158,6 +158,13 @@ fn handler_case(ctx: &mut Ctx, index: u64, kind: usize, rng: &mut Rng) {
     let replies = peer.pump();
     ctx.distinct(sched.fingerprint() ^ kind as u64);
     let trace = sched.trace_string();
+    if index % 7 == 0 {
+        let outcomes: Vec<_> = calls.iter().map(|(s, label, _)| {
+            let rs: Vec<_> = replies.iter().filter(|r| r.msg.reply_serial() == Some(*s)).collect();
+            json!({"call": label, "replies": rs.len(), "reply_type": rs.first().map(|r| r.msg.mtype), "error": rs.first().and_then(|r| r.msg.error_name().map(|e| e.to_string()))})
+        }).collect();
+        ctx.sample(json!({"class": "handler", "scenario_kind": kind, "calls": outcomes, "quiescent": q, "schedule": trace.chars().take(160).collect::<String>()}));
+    }
     for (s, label, _) in &calls {
         let rs: Vec<_> = replies.iter().filter(|r| r.msg.reply_serial() == Some(*s)).collect();
         ctx.count("calls_checked", 1);
@@ -254,6 +261,9 @@ fn lazy_case(ctx: &mut Ctx, index: u64, rng: &mut Rng) {
     ctx.count(&format!("class:lazy-pre{pre}-gap{gap}"), 1);
     ctx.distinct(sched.fingerprint() ^ (pre as u64) << 8 ^ gap);
     let rs: Vec<_> = replies.iter().filter(|r| r.msg.reply_serial() == Some(s)).collect();
+    if index % 5 == 0 {
+        ctx.sample(json!({"class": "call-right-after-on-demand-server-creation", "pre_messages": pre, "gap_steps": gap, "replies": rs.len(), "reply_type": rs.first().map(|r| r.msg.mtype), "quiescent": q, "schedule": sched.trace_string().chars().take(160).collect::<String>()}));
+    }
     if rs.is_empty() {
         ctx.finding(index, "call-after-registration-never-dispatched", "on-demand-object-server", "-", json!({"pre_messages": pre, "gap_steps": gap, "quiescent": q, "trace": sched.trace_string()}));
     } else if rs[0].msg.mtype != METHOD_RETURN {
@@ -276,9 +286,6 @@ pub fn run(ctx: &mut Ctx) {
         } else {
             ctx.guarded(i, "lazy", || json!({}), |ctx| lazy_case(ctx, i, &mut rng));
         }
-    }
-    if ctx.args.shard == 0 {
-        ctx.sample(json!({"scenarios": ["method handlers calling at/remove/interface/emit", "Properties.Get/Set/GetAll on getters/setters that call into the object server", "registration under ObjectManager", "call right after on-demand server creation"]}));
     }
     let _ = fnv;
 }
